@@ -410,6 +410,8 @@ def c16(ck, F, tier):
     import rules_struct as rs_
     ck.rule("SELF-COMPARE", "in-area helpers are not called with the area's own sheet as the sheet to test", floor=5)
     guarded(ck, rs_.tautology, F)
+    ck.rule("FLAG-MATCH", "every coordinate is resolved with its own absolute flag", floor=6)
+    guarded(ck, rs_.flag_match, F)
 
 
 _STRUCT_NOTE = ("The piecewise index maps themselves (formula references, CF ranges, links, column descriptors) being equal / inverse "
